@@ -45,6 +45,7 @@ func Parse(s string) (ByteSize, error) {
 	num := int64(0)
 	multiplier := int64(1)
 	foundUnit := false
+	foundDigit := false
 
 	for _, r := range s {
 		if isDigit(r) {
@@ -54,6 +55,7 @@ func Parse(s string) (ByteSize, error) {
 
 			digit := int64(r - '0')
 			num = num*10 + digit
+			foundDigit = true
 		} else {
 			if foundUnit {
 				return 0, fmt.Errorf("%w in: %s", ErrMultipleUnits, s)
@@ -66,8 +68,11 @@ func Parse(s string) (ByteSize, error) {
 
 			multiplier = unit
 			foundUnit = true
-			break
 		}
+	}
+
+	if !foundDigit || !foundUnit {
+		return 0, fmt.Errorf("%w: expected digits followed by a unit in: %s", ErrInvalidFormat, s)
 	}
 
 	return ByteSize(num * multiplier), nil
